@@ -927,3 +927,165 @@ impl<E: Pairing> Wire for PairingOutput<E> {
         }
     }
 }
+
+// ------------------------------------------------------------ ZCash-style format (curves/bls12_381)
+//
+// The ark-bls12-381 crate overrides the point (de)serializers with the format
+// of the `zkcrypto/bls12_381` crate: big-endian coordinates, highest extension
+// coordinate first, three flag bits in the top bits of the first byte
+// (bit 7 compressed, bit 6 infinity, bit 5 "y is the lexicographically largest").
+
+fn be_coords<F: Field>(v: &F) -> Vec<u8> {
+    let fb = prime_bytes::<F::BasePrimeField>();
+    let mut out = vec![];
+    let elems: Vec<F::BasePrimeField> = v.to_base_prime_field_elements().collect();
+    for e in elems.iter().rev() {
+        let mut b = e.into_bigint().to_bytes_be();
+        while b.len() < fb {
+            b.insert(0, 0);
+        }
+        let n = b.len();
+        out.extend_from_slice(&b[n - fb..]);
+    }
+    out
+}
+
+/// decode one field element (big-endian, highest coordinate first); `mask_first` clears the three flag bits
+fn be_decode<F: Field>(bytes: &[u8], mask_first: bool) -> Dec<F> {
+    let fb = prime_bytes::<F::BasePrimeField>();
+    let d = F::extension_degree() as usize;
+    if bytes.len() < fb * d {
+        return Dec::Short;
+    }
+    let p = modulus::<F::BasePrimeField>();
+    let mut elems = vec![F::BasePrimeField::zero(); d];
+    for i in 0..d {
+        let mut chunk = bytes[i * fb..(i + 1) * fb].to_vec();
+        if i == 0 && mask_first {
+            chunk[0] &= 0x1f;
+        }
+        let v = BigUint::from_bytes_be(&chunk);
+        if v >= p {
+            return Dec::Reject("coordinate integer >= modulus");
+        }
+        elems[d - 1 - i] = F::BasePrimeField::from(v);
+    }
+    Dec::Ok(F::from_base_prime_field_elems(elems).unwrap())
+}
+
+pub fn zcash_model<P: sw::SWCurveConfig>(bytes: &[u8], c: Compress) -> Model {
+    let fs = prime_bytes::<<P::BaseField as Field>::BasePrimeField>() * P::BaseField::extension_degree() as usize;
+    let need = if matches!(c, Compress::Yes) { fs } else { 2 * fs };
+    if bytes.len() < need {
+        return Model::Short;
+    }
+    let comp = bytes[0] & 0x80 != 0;
+    let inf = bytes[0] & 0x40 != 0;
+    let sort = bytes[0] & 0x20 != 0;
+    if sort && (!comp || inf) {
+        return Model::Reject("sort flag without compression or with infinity");
+    }
+    if comp != matches!(c, Compress::Yes) {
+        return Model::Reject("compression flag does not match the mode");
+    }
+    if inf {
+        let mut b = bytes[..need].to_vec();
+        b[0] &= 0x1f;
+        return if b.iter().all(|x| *x == 0) {
+            Model::Accept { consumed: need, valid: true, what: "identity" }
+        } else {
+            Model::Reject("infinity flag with non-zero coordinates")
+        };
+    }
+    let x: P::BaseField = match be_decode(&bytes[..fs], true) {
+        Dec::Ok(x) => x,
+        Dec::Reject(w) => return Model::Reject(w),
+        _ => return Model::Short,
+    };
+    if comp {
+        let rhs = x.square() * x + P::COEFF_A * x + P::COEFF_B;
+        match rhs.sqrt() {
+            None => Model::Reject("x has no point on the curve"),
+            Some(y) => {
+                let ny = -y;
+                let (small, large) = if lex_gt(&y, &ny) { (ny, y) } else { (y, ny) };
+                let y = if sort { large } else { small };
+                let valid = ref_sw_valid::<P>(&x, &y);
+                Model::Accept { consumed: need, valid, what: if valid { "valid point" } else { "on curve, outside subgroup" } }
+            },
+        }
+    } else {
+        let y: P::BaseField = match be_decode(&bytes[fs..2 * fs], false) {
+            Dec::Ok(y) => y,
+            Dec::Reject(w) => return Model::Reject(w),
+            _ => return Model::Short,
+        };
+        let on = ref_sw_on_curve::<P>(&x, &y);
+        let valid = on && ref_sw_valid::<P>(&x, &y);
+        Model::Accept {
+            consumed: need,
+            valid,
+            what: if valid {
+                "valid point"
+            } else if on {
+                "on curve, outside subgroup"
+            } else {
+                "off curve"
+            },
+        }
+    }
+}
+
+fn zcash_encode<P: sw::SWCurveConfig>(x: &P::BaseField, y: &P::BaseField, flags: u8, c: Compress) -> Vec<u8> {
+    let mut e = be_coords(x);
+    if matches!(c, Compress::No) {
+        e.extend_from_slice(&be_coords(y));
+    }
+    e[0] |= flags;
+    e
+}
+
+pub fn zcash_foreign<P: sw::SWCurveConfig>(g: &mut G<'_>, c: Compress) -> Option<(Vec<u8>, &'static str)> {
+    let cbit = if matches!(c, Compress::Yes) { 0x80u8 } else { 0 };
+    let sortbit = |y: &P::BaseField| if matches!(c, Compress::Yes) && lex_gt(y, &-*y) { 0x20u8 } else { 0 };
+    match g.rng.below(9) {
+        0 | 1 => {
+            let p = sw_random_curve_point::<P>(g);
+            Some((zcash_encode::<P>(&p.x, &p.y, cbit | sortbit(&p.y), c), "random curve point"))
+        },
+        2 | 3 => {
+            let x = P::BaseField::rand(g.rng);
+            let y = P::BaseField::rand(g.rng);
+            Some((zcash_encode::<P>(&x, &y, 0, Compress::No), "off-curve (uncompressed layout)"))
+        },
+        4 => {
+            // small-order points of other curves y^2 = x^3 + b': x = 0 (order 3 there)
+            let y = P::BaseField::from(g.rng.range(1, 9) as u64);
+            Some((zcash_encode::<P>(&P::BaseField::ZERO, &y, 0, Compress::No), "off-curve point with x = 0 (uncompressed layout)"))
+        },
+        5 => {
+            let p = (P::GENERATOR * gen_scalar::<P::ScalarField>(g)).into_affine();
+            let y = p.y + P::BaseField::ONE;
+            Some((zcash_encode::<P>(&p.x, &y, 0, Compress::No), "valid x, wrong y"))
+        },
+        6 => {
+            let p = (P::GENERATOR * gen_scalar::<P::ScalarField>(g)).into_affine();
+            let f = *g.rng.pick(&[0x20u8, 0x60, 0xe0, 0x40, 0xc0, 0xa0, 0x80, 0x00]);
+            Some((zcash_encode::<P>(&p.x, &p.y, f, c), "arbitrary flag combination on a valid point"))
+        },
+        7 => {
+            loop {
+                let x = P::BaseField::rand(g.rng);
+                let rhs = x.square() * x + P::COEFF_A * x + P::COEFF_B;
+                if rhs.sqrt().is_none() {
+                    return Some((zcash_encode::<P>(&x, &x, 0x80, Compress::Yes), "x without square root (compressed layout)"));
+                }
+            }
+        },
+        _ => {
+            // valid point (must be accepted in the matching mode)
+            let p = (P::GENERATOR * gen_scalar::<P::ScalarField>(g)).into_affine();
+            Some((zcash_encode::<P>(&p.x, &p.y, cbit | sortbit(&p.y), c), "valid point"))
+        },
+    }
+}
